@@ -158,6 +158,10 @@ def generate(seed: int, tier: str) -> Dict[str, Any]:
                         with_gel=not any(x in ("boot_load", "boot_garbage") for x in sites))
     if any(s in GEL_SITES for s in sites):
         sites = [s for s in sites if s != "rerank_with_gel"]
+    if world.get("gel") is not None and r.chance(0.08):
+        # garbage INSIDE the co-activation graph the rerank layer reads (a caller-supplied or hand-edited graph): weights that are
+        # no numbers.  Like a foreign snapshot file this is content, not an exception; only completion is asserted for it
+        sites = sites + ["gel_weights_garbage"]
     faults = []
     for s in sites:
         transient_ok = s in ("sidecar", "reflect_log", "quality_trace", "boot_load")
@@ -166,6 +170,9 @@ def generate(seed: int, tier: str) -> Dict[str, Any]:
         if s == "boot_garbage":
             f["garbage"] = [r.choice(GARBAGE) for _ in range(r.randint(1, 2))]
             f["gseed"] = int(r.u64() % 100000)
+        if s == "gel_weights_garbage":
+            f["exc"], f["when"] = "content", "always"
+            f["values"] = [r.choice(_BAD_WEIGHTS) for _ in range(r.randint(1, 3))]
         faults.append(f)
     # configuration that switches every optional subsystem ON (so each armed site is reachable)
     raw = E.valid_cfg(rng.stream("config"), ["t1", "t2", "t3", "t4"], p=0.3)
@@ -179,6 +186,11 @@ def generate(seed: int, tier: str) -> Dict[str, Any]:
         ge = world["gel"]["edges"]
         for a, b, w in (("s1", "s2", 0.9), ("s3", "s4", 0.9), ("s2", "s3", 0.05)):
             ge["%s→%s" % (a, b)] = {"id": "%s→%s" % (a, b), "src": a, "dst": b, "weight": w, "rel": "coact", "updated_at": None, "attrs": {}}
+        for f in faults:
+            if f["site"] == "gel_weights_garbage":
+                for i, k in enumerate(sorted(ge)):
+                    if i < len(f["values"]) or r.chance(0.3):
+                        ge[k]["weight"] = copy.deepcopy(f["values"][i % len(f["values"])])
     raw["t2"]["hybrid"] = {"enabled": True, "edge_threshold": 0.0, "lambda_graph": 0.9}
     raw["t2"]["quality"] = {"enabled": True, "lexical": {"enabled": True}, "fusion": {"enabled": True, "alpha_semantic": 0.4},
                             "mmr": {"enabled": True, "lambda": 0.4}}
@@ -214,7 +226,7 @@ def _twin_cfg(raw: Dict[str, Any], faults: List[Dict[str, Any]]) -> Dict[str, An
         raw["t3"]["allow_reflection"] = False
     if names & {"llm_adapter", "llm_fixture_missing"}:
         raw["t3"]["backend"] = "rulebased"
-    if "rerank_with_gel" in names:
+    if "rerank_with_gel" in names or "gel_weights_garbage" in names:
         raw["t2"]["hybrid"] = {"enabled": False}
     # ("fuse" has no switch of its own: its twin is the same call handing its input back, see _run)
     if "mmr" in names and isinstance(raw["t2"].get("quality"), dict):
@@ -225,6 +237,9 @@ def _twin_cfg(raw: Dict[str, Any], faults: List[Dict[str, Any]]) -> Dict[str, An
     if "invalidate" in names:
         raw["t4"]["cache_bust_mode"] = "none"
     return raw
+
+
+_BAD_WEIGHTS: List[Any] = [None, "abc", "", [0.5], {"w": 1}, "0.5 or so"]
 
 
 class _Store(InMemoryGraphStore):
@@ -327,6 +342,9 @@ def _run(program: Dict[str, Any], faulty: bool) -> Dict[str, Any]:
                 out["fired"]["store_apply"] = store.raised
             if "llm_fixture_missing" in names and faulty:
                 out["fired"]["llm_fixture_missing"] = 1
+            if "gel_weights_garbage" in names and faulty:
+                out["fired"]["gel_weights_garbage"] = sum(1 for e in ((program["world"].get("gel") or {}).get("edges") or {}).values()
+                                                          if not isinstance(e.get("weight"), (int, float)) or isinstance(e.get("weight"), bool))
             logs = E.read_dir(ee.logs)
             out["logs"] = {n: E.normalise_paths(logs.get(n, b""), root).decode("utf-8", "replace") for n in CANON}
     return out
@@ -391,7 +409,9 @@ def _execute(program: Dict[str, Any]) -> Dict[str, Any]:
                 return "\n".join(out) + ("\n" if text.endswith("\n") else "")
             for n in CANON:
                 a["logs"][n], b["logs"][n] = _strip(a["logs"][n]), _strip(b["logs"][n])
-        if not boot_loaded:
+        if "gel_weights_garbage" in names:
+            stats["gel_weights_garbage_completed"] = 1
+        elif not boot_loaded:
             for n in CANON:
                 if a["logs"][n] != b["logs"][n]:
                     la, lb = a["logs"][n].splitlines(), b["logs"][n].splitlines()
